@@ -149,7 +149,7 @@ def main():
     }
     json.dump(m, open(os.path.join(ROOT, "MANIFEST.json"), "w"), indent=1)
 
-HOOK_COMMITS = ["1494318", "2d5a8aa", "19ff1fe", "89b7d2b"]
+HOOK_COMMITS = ["1494318", "2d5a8aa", "19ff1fe", "89b7d2b", "195b251"]
 
 if __name__ == "__main__":
     main()
